@@ -1425,18 +1425,24 @@ class IRGenerator:
                             *loc)
                     if isinstance(env[type_name], Environment):
                         # Handle reference to field in imported namespace.
+                        imported_env = env[type_name]
                         parts = val.split('.', 2)
-                        if len(parts) != 3 or parts[1] not in env[parts[0]]:
+                        if len(parts) != 3 or parts[1] not in imported_env:
                             raise InvalidSpec(
                                 'Bad doc reference to field %s of imported '
                                 'namespace %s.' % (quote(field_name), quote(type_name)),
                                 *loc)
                         namespace_name, type_name, field_name = parts
-                        data_type_to_check = env[namespace_name][type_name]
-                    elif isinstance(env[type_name], Alias):
-                        data_type_to_check = env[type_name].data_type
+                        data_type_to_check = imported_env[type_name]
                     else:
                         data_type_to_check = env[type_name]
+                    if isinstance(data_type_to_check, Alias):
+                        data_type_to_check, _ = unwrap_aliases(data_type_to_check)
+                    if not isinstance(data_type_to_check, (Struct, Union)):
+                        raise InvalidSpec(
+                            'Bad doc reference to field %s of %s, which is not '
+                            'a struct or union.' % (quote(field_name), quote(type_name)),
+                            *loc)
                     if not any(field.name == field_name
                                for field in data_type_to_check.all_fields):
                         raise InvalidSpec(
@@ -1444,7 +1450,11 @@ class IRGenerator:
                             *loc)
                 else:
                     # Referring to a field that's a member of this type
-                    assert type_context is not None
+                    if type_context is None:
+                        raise InvalidSpec(
+                            'Bad doc reference to field %s: there is no '
+                            'enclosing struct or union here.' % quote(val),
+                            *loc)
                     if not any(field.name == val
                                for field in type_context.all_fields):
                         raise InvalidSpec(
